@@ -259,6 +259,9 @@ def main():
                 items.append((t.to_json(), ("array", "scalar")[(k + 1) % 2], args.seed + k, timeout, ("numpy", "SX"), False, h))
             if args.thorough or k % 3 == 1:
                 items.append((t.to_json(), ("array", "scalar")[k % 2], args.seed + k, timeout, ("numpy",), False, "same-names"))
+            if any(len(t.out_links(n)) > 1 for n in t.nodes):
+                # time-varying splitting rates: the turn rates are re-assigned after a first step
+                items.append((t.to_json(), ("array", "scalar")[k % 2], args.seed + k, timeout, ("numpy", "SX") if args.thorough else (("numpy",), ("SX",))[k % 2], False, "turnrates-reassigned-after-step"))
     results = harness.pmap(work, items, args.serial)
     viol, inc, tot, levels, samples, st, _ = netcheck.summarize(results)
     cov = netcheck.base_coverage(
